@@ -36,7 +36,7 @@ META = dict(
                       "(first use builds the table), mul_add, getstate}; the shared point starts "
                       "unnormalised or normalised, with or without a table; context switch at "
                       "every access to the two mutable fields",
-                thorough="same + the pairs with both threads running two operations"),
+                thorough="same + one thread running two operations (scale/to_affine/3*P/x followed by any) against any single operation"),
     stubs=["point kernels (_add, _double) and inverse_mod: taint-propagating stubs (their values are "
            "C06's business; here only which loads feed them matters)",
            "__dict__.copy() / __dict__.update(): one atomic step (C-level, GIL)"],
@@ -269,10 +269,34 @@ def _deps(vals):
 # interleavings
 # ---------------------------------------------------------------------------------------
 
+def _seq_summary(ops, norm, table, generator):
+    """summaries of a sequence of operations of one thread, concatenated (load ids shifted);
+    after an operation that stored normalised coordinates / a table the next one starts there"""
+    ev, mix = [], []
+    for op in ops:
+        e, m = summarise(op, norm, table, generator)
+        off = len(ev)
+        for kind, loc, info in e:
+            if kind == "L":
+                info = info + off
+            elif kind == "S" and isinstance(info, frozenset):
+                info = frozenset(i + off for i in info)
+            ev.append((kind, loc, info))
+        for loads, what in m:
+            mix.append((frozenset(i + off for i in loads), "%s: %s" % (op, what)))
+        if any(k == "S" and l == COORDS for k, l, _ in e):
+            norm = True
+        if any(k == "S" and l == TABLE for k, l, _ in e):
+            table = True
+    return ev, mix
+
+
 def pair(opA, opB, norm, table, generator):
     t0 = core.Stats()
-    evA, mixA = summarise(opA, norm, table, generator)
-    evB, mixB = summarise(opB, norm, table, generator)
+    seqA = opA.split("+")
+    seqB = opB.split("+")
+    evA, mixA = _seq_summary(seqA, norm, table, generator)
+    evB, mixB = _seq_summary(seqB, norm, table, generator)
     s = z3.Solver()
     s.set("timeout", 60000)
     ta = [z3.Int("a%d" % i) for i in range(len(evA))]
@@ -337,9 +361,19 @@ def pair(opA, opB, norm, table, generator):
     if len(ta) >= 2 and tb:
         s.push()
         s.add(ta[0] < tb[0], tb[0] < ta[-1])
+        t0.queries += 1
         if s.check() == z3.sat:
             t0.twins_sat += 1
         s.pop()
+        # every pair of loads of one thread can be separated by the other thread's first event:
+        # the schedule space really contains the windows the property is about
+        for i in range(len(ta) - 1):
+            t0.queries += 1
+            s.push()
+            s.add(ta[i] < tb[0], tb[0] < ta[i + 1])
+            if s.check() != z3.sat:
+                t0.inconclusive.append("window %d of A cannot be preempted" % i)
+            s.pop()
     else:
         t0.twins_sat += 1
     t0.paths = 1
@@ -366,6 +400,14 @@ def jobs(tier, seed):
                     continue
                 js.append(Job("pair/%s/%s/n%d_t%d_g%d" % (a, b, norm, table, gen), "harness.c18:pair",
                               opA=a, opB=b, norm=norm, table=table, generator=gen))
+    if tier != "quick":
+        for a1 in ("scale", "to_affine", "mul3", "x"):
+            for a2 in OPS:
+                for b in OPS:
+                    for (norm, table, gen) in ((False, False, False), (False, False, True)):
+                        js.append(Job("seq/%s+%s/%s/n%d_t%d_g%d" % (a1, a2, b, norm, table, gen),
+                                      "harness.c18:pair", opA=a1 + "+" + a2, opB=b, norm=norm,
+                                      table=table, generator=gen))
     return js
 
 
@@ -405,9 +447,14 @@ def replay_schedule(inp):
             st.__setstate__(v)
             return ("state", st.x(), st.y(), (st * 3).x())
         return v
+    def run_seq(name, P):
+        out = None
+        for part in name.split("+"):
+            out = plain(ops[part](P, Q))
+        return out
     want = {}
     for name in (opA, opB):
-        want[name] = plain(ops[name](fresh(), Q))
+        want[name] = run_seq(name, fresh())
     # gated run
     ctl = Controller()
     local = threading.local()
@@ -464,7 +511,7 @@ def replay_schedule(inp):
     def body(tid, name):
         local.tid = tid
         try:
-            results[tid] = plain(ops[name](shared, Q))
+            results[tid] = run_seq(name, shared)
         except BaseException as ex:
             if type(ex).__name__ == "_Abort":
                 return
